@@ -182,6 +182,22 @@ int h_regexec(const regex_t *preg, const char *s, size_t nmatch, regmatch_t pmat
             hb_add(&transcript, tmp, strlen(tmp));
         }
     }
+    /* the documented semantics of every expression of the configuration: a case-insensitive extended regular expression matched
+       against the WHOLE value. When the expression as the code compiled it answers otherwise, the reference answer is recorded too. */
+    if (pat) {
+        regex_t ref;
+        if (!regcomp(&ref, pat, REG_EXTENDED | REG_ICASE | REG_NOSUB)) {
+            int r2 = regexec(&ref, s, 0, NULL, 0);
+            regfree(&ref);
+            if (!r2 != !r) {
+                hb_add(&transcript, " rxref:", 7);
+                hb_addhex(&transcript, (const uint8_t *)pat, strlen(pat));
+                hb_add(&transcript, ":", 1);
+                hb_addhex(&transcript, (const uint8_t *)s, strlen(s));
+                hb_add(&transcript, r2 ? ":n" : ":m", 2);
+            }
+        }
+    }
     pthread_mutex_unlock(&bufmu);
     return r;
 }
